@@ -99,6 +99,9 @@ inductive Ty where
   | ref (name : List Char)
   | opt (t : Ty)
   | union (ts : List Ty)
+  /-- `Union[…] = Field(…, discriminator=prop)`: the alternatives are classes of named definitions; each
+  carries the tag literals that `Parser.__apply_discriminator_type` writes into its class -/
+  | tagged (prop : List Char) (branches : List (List Atom × List Char))
   deriving Inhabited
 
 abbrev IRDefs := List (List Char × Ty)
@@ -182,6 +185,39 @@ def constDefaulted (st : Style) : Schema → Bool
   | .const _ => st == .v1
   | _ => false
 
+/-! ### discriminators (`Parser.__apply_discriminator_type`, parser/base.py) -/
+
+/-- `Literal[…]` of the tag values -/
+def litTy : List Atom → Ty
+  | [a] => .const a
+  | as => .enumCls as
+
+/-- the tag literals of the class of definition `r`: EVERY mapping key that points at it -/
+def tagAtoms (refs : List (List Char)) (mapping : List (List Char × List Char)) (r : List Char) : List Atom :=
+  (tagsOf (effMapping refs mapping) r).map Atom.str
+
+def branchesOf (refs : List (List Char)) (mapping : List (List Char × List Char)) :
+    List (List Atom × List Char) :=
+  refs.map (fun r => (tagAtoms refs mapping r, r))
+
+/-- the loop over `discriminator_model.fields`: the member named like the discriminator property gets
+the type `Literal[tags]` and becomes required; when there is no such member one is appended.
+(The early exit `len(literals) == 1 and literals[0] == type_names[0]` needs a member that already has
+a `Literal` data type: that only arises under `--enum-field-as-literal`, outside this model — a
+`const` member keeps its plain type at this stage and carries the constant as a field extra.) -/
+def patchFields (prop : List Char) (tags : List Atom) :
+    List (List Char × Bool × Cons × Ty) → List (List Char × Bool × Cons × Ty)
+  | [] => [(prop, true, {}, litTy tags)]
+  | f :: fs =>
+    if f.1 == prop then (prop, true, f.2.2.1, litTy tags) :: fs
+    else f :: patchFields prop tags fs
+
+/-- what the pass does to the class of one alternative (classes only) -/
+def patchTag (prop : List Char) (tags : List Atom) : Ty → Ty
+  | .model fields extra => .model (patchFields prop tags fields) extra
+  | .derived bases fields extra => .derived bases (patchFields prop tags fields) extra
+  | t => t
+
 mutual
 /-- `parse_obj` (ctx = top) / `parse_item` (otherwise) -/
 def tr (st : Style) (o : Opts) : Ctx → Schema → Ty
@@ -209,7 +245,9 @@ def tr (st : Style) (o : Opts) : Ctx → Schema → Ty
       if hc && (phc || o.fieldConstraints) then .root (rootCons o (consOfItems (fieldKw st) mn mx)) lst
       else lst
   | _, .object props req addl => .model (trProps st o req props) (extraOf st addl)
-  | _, .dict value => .dict (tr st o .plain value)
+  | _, .dict value =>
+    -- a discriminator on the value schema of `additionalProperties` is not a field extra: plain Union
+    .dict (if value.isDisc then .union (value.discRefs.map .ref) else tr st o .plain value)
   | _, .ref n => .ref n
   | _, .anyOf alts => .union (trAlts st o alts)
   | _, .oneOf alts => .union (trAlts st o alts)
@@ -222,6 +260,13 @@ def tr (st : Style) (o : Opts) : Ctx → Schema → Ty
     | .top, _, _ => .derived refs (trProps st o (req ++ xreq) props) .unset
     | _, [r], [] => .ref r
     | _, _, _ => .derived refs (trProps st o (req ++ xreq) props) .unset
+  | ctx, .disc _ prop refs mapping =>
+    -- a member keeps the union and gets `Field(discriminator=…)`; a document / definition (`parse_obj`) and
+    -- an array item (`if item.discriminator and parent and parent.is_array`) go through `parse_root_type`
+    let t := Ty.tagged prop (branchesOf refs mapping)
+    match ctx with
+    | .plain => t
+    | _ => .root {} t
 /-- `parse_object_fields` -/
 def trProps (st : Style) (o : Opts) (req : List (List Char)) :
     List (List Char × Schema) → List (List Char × Bool × Cons × Ty)
@@ -232,12 +277,54 @@ def trProps (st : Style) (o : Opts) (req : List (List Char)) :
 /-- `parse_combined_schema` → `parse_list_item(…, parent = the union schema)` -/
 def trAlts (st : Style) (o : Opts) : List Schema → List Ty
   | [] => []
-  | s :: ss => tr st o (.item false) s :: trAlts st o ss
+  | s :: ss =>
+    -- a discriminated union nested in a union is parsed as a plain nested Union (its parent is no array)
+    (if s.isDisc then .union (s.discRefs.map .ref) else tr st o (.item false) s) :: trAlts st o ss
 end
 
 /-- definitions are parsed by `parse_obj` -/
 def trDefs (st : Style) (o : Opts) : Defs → IRDefs
   | [] => []
   | p :: ps => (p.1, tr st o .top p.2) :: trDefs st o ps
+
+/-! ### the discriminator pass over a whole document
+
+`acceptsTy` applies `patchTag` where a tagged union looks an alternative up (the classes of the
+alternatives are rewritten for that union). The real pass rewrites the classes themselves, once per
+field that carries `discriminator`; `patchDefs` is that pass, used for the stage-1 comparison of the
+definitions with the IR of the real parser. -/
+
+mutual
+/-- the fields that carry a `discriminator` extra: members, root types of documents / definitions and of
+array items — not the value schema of `additionalProperties`, not a union nested in a union -/
+def sites : Schema → List (List Char × List (List Atom × List Char))
+  | .disc _ prop refs mapping => [(prop, branchesOf refs mapping)]
+  | .array items _ _ => sites items
+  | .object props _ _ => sitesProps props
+  | .dict value => if value.isDisc then [] else sites value
+  | .anyOf alts => sitesAlts alts
+  | .oneOf alts => sitesAlts alts
+  | .allOf _ props _ _ => sitesProps props
+  | _ => []
+def sitesProps : List (List Char × Schema) → List (List Char × List (List Atom × List Char))
+  | [] => []
+  | p :: ps => sites p.2 ++ sitesProps ps
+def sitesAlts : List Schema → List (List Char × List (List Atom × List Char))
+  | [] => []
+  | s :: ss => (if s.isDisc then [] else sites s) ++ sitesAlts ss
+end
+
+/-- all discriminator sites of a document: its body, then its definitions -/
+def docSites (defs : Defs) (body : Schema) : List (List Char × List (List Atom × List Char)) :=
+  sites body ++ sitesProps defs
+
+/-- one site applied to the class of definition `n` -/
+def applySite (n : List Char) (d : Ty) (s : List Char × List (List Atom × List Char)) : Ty :=
+  match s.2.find? (fun b => b.2 == n) with
+  | some b => patchTag s.1 b.1 d
+  | none => d
+
+def patchDefs (ss : List (List Char × List (List Atom × List Char))) (D : IRDefs) : IRDefs :=
+  D.map (fun nd => (nd.1, ss.foldl (applySite nd.1) nd.2))
 
 end Dcg.Model.Translate
